@@ -42,7 +42,7 @@ type Case struct {
 	Desc   string `json:"desc,omitempty"`
 }
 
-var lim = interp.Limits{MaxElem: 1 << 20}
+var lim = interp.Limits{MaxElem: 1 << 21}
 
 func check(ctx *pbt.Ctx, c Case) error {
 	flags := interp.Flags(c.Flags)
@@ -296,11 +296,42 @@ func twinProgram(src, mk, tr frag, x []byte, genesis bool, invoke int) Case {
 	return Case{Prog: p, Invoke: invoke, Desc: src.name + "/" + mk.name + "/" + tr.name}
 }
 
+func inList(s string, l []string) bool {
+	for _, x := range l {
+		if x == s {
+			return true
+		}
+	}
+	return false
+}
+
 func TestTwins(t *testing.T) {
 	pbt.Run(t, pbt.Sub[Case]{
 		Name: "twins", Quick: 60000, Thorough: 4000000,
-		EnumDesc: fmt.Sprintf("complete cross product of %d item sources x %d twin makers x %d value-changing transformers x %d operand shapes x both eras", len(sources), len(makers), len(transformers), len(shapes)),
+		EnumDesc: fmt.Sprintf("complete cross product of %d item sources x %d twin makers x %d value-changing transformers x %d operand shapes x both eras; after genesis operands of 2^20 bytes (thorough: 2^16 .. 2^20+1) through the byte-wise transformers with a twin on the data or alt stack", len(sources), len(makers), len(transformers), len(shapes)),
 		Enum: func(tier string, yield func(Case)) {
+			// very large operands (after genesis only): 2^16, 2^20-1, 2^20, 2^20+1 bytes through the
+			// byte-wise transformers, with a twin on the data or the alt stack
+			hugeSizes, hugeMakers := []int{1 << 20}, []string{"DUP", "ALT"}
+			hugeTr := []string{"INVERT", "AND", "OR", "XOR"}
+			if tier == "thorough" {
+				hugeSizes = []int{1 << 16, 1<<20 - 1, 1 << 20, 1<<20 + 1}
+				hugeMakers = []string{"DUP", "ALT", "OVER", "PICK", "TUCK"}
+				hugeTr = []string{"INVERT", "AND", "OR", "XOR", "LSHIFT1", "RSHIFT1", "SPLIT", "SHA256", "SIZE-DROP"}
+			}
+			for _, n := range hugeSizes {
+				x := make([]byte, n)
+				for i := range x {
+					x[i] = byte(i*7 + 3)
+				}
+				for _, m := range makers {
+					for _, tr := range transformers {
+						if inList(m.name, hugeMakers) && inList(tr.name, hugeTr) {
+							yield(twinProgram(sources[0], m, tr, x, true, 0))
+						}
+					}
+				}
+			}
 			for _, g := range []bool{true, false} {
 				for _, s := range sources {
 					for _, m := range makers {
